@@ -494,6 +494,11 @@ def wakeup_windows(prop_id, menu):
         out.append(("doc-absent", [store_object("p1", d(menu.X))],
                     [store_metadata("p1", d(menu.V1)), store_metadata("p1", d(menu.V2)), store_metadata("p1", d(menu.V2), "f2")],
                     script(lambda l: l[0] == "rename")))
+        # ... two deletes of one document (the second must not get in between the first one's look and its removal)
+        out.append(("doc-present", [store_object("p1", d(menu.X)), store_metadata("p1", d(menu.V1))],
+                    [delete_metadata("p1", seq.DEFAULT_NS), delete_metadata("p1", seq.DEFAULT_NS),
+                     store_metadata("p1", d(menu.V2), "f2")],
+                    script(lambda l: l[0] == "remove")))
     return out
 
 
